@@ -1,26 +1,31 @@
-//! `zv <scenario> [--tier quick|thorough] [--seed N] [--only X]`: runs the real zlink code on
-//! generated inputs and prints one line per case (input + canonical observation).
+//! `zv <scenario> [--tier quick|thorough] [--seed N] [--only X] [--index I] [--limit N]`: runs the
+//! real zlink code on generated inputs and prints one line per case (input + canonical observation).
 mod common;
 mod rx;
+mod tx;
 
 fn main() {
     let args: Vec<String> = std::env::args().collect();
     let scenario = args.get(1).cloned().unwrap_or_default();
-    let mut tier = "quick".to_string();
-    let mut seed = 1u64;
-    let mut only: Option<String> = None;
+    let mut o = common::Opts { tier: "quick".into(), seed: 1, only: None, index: None, limit: 64 * 1024 };
     let mut i = 2;
     while i < args.len() {
+        let v = args.get(i + 1).cloned().unwrap_or_default();
         match args[i].as_str() {
-            "--tier" => { tier = args[i + 1].clone(); i += 1; }
-            "--seed" => { seed = args[i + 1].parse().unwrap_or(1); i += 1; }
-            "--only" => { only = Some(args[i + 1].clone()); i += 1; }
+            "--tier" => { o.tier = v; i += 1; }
+            "--seed" => { o.seed = v.parse().unwrap_or(1); i += 1; }
+            "--only" => { o.only = Some(v); i += 1; }
+            "--index" => { o.index = v.parse().ok(); i += 1; }
+            "--limit" => { o.limit = v.parse().unwrap_or(64 * 1024); i += 1; }
             _ => {}
         }
         i += 1;
     }
     match scenario.as_str() {
-        "rx" => rx::main(&tier, seed, only.as_deref()),
+        "rx" => rx::main(&o),
+        "rx-bounds" => rx::main_bounds(&o),
+        "tx" => tx::main(&o, false),
+        "tx-bounds" => tx::main(&o, true),
         other => {
             eprintln!("unknown scenario {other}");
             std::process::exit(2);
